@@ -651,6 +651,15 @@ impl Group {
         key_tag: u16,
         cache: &SigCache,
     ) -> bool {
+        // The validity period depends on the current time and must not be
+        // answered from the cache: a signature that verified once expires.
+        let ts_now = Timestamp::now();
+        if ts_now.canonical_gt(&sig.data().expiration())
+            || ts_now.canonical_lt(&sig.data().inception())
+        {
+            return false;
+        }
+
         let mut signed_data = Vec::<u8>::new();
         sig.data()
             .signed_data(&mut signed_data, &mut self.rr_set())
